@@ -61,6 +61,7 @@ E('rowslice', lambda t: petl.rowslice(t, 1, 3), stream=True)
 E('skipcomments', lambda t: petl.skipcomments(t, '#'), stream=True)
 # ---- headers
 E('rename', lambda t: petl.rename(t, 'a', 'x'), stream=True)
+E('rename-swap', lambda t: petl.rename(t, {'a': 'b', 'b': 'a'}), stream=True, hdr=('b', 'a', 'c'))
 E('rename-dict', lambda t: petl.rename(t, {'a': 'x', 'c': 'z'}), stream=True)
 E('setheader', lambda t: petl.setheader(t, ['x', 'y', 'z']), stream=True)
 E('extendheader', lambda t: petl.extendheader(t, ['d']), stream=True)
@@ -127,6 +128,8 @@ E('searchcomplement', lambda t: petl.searchcomplement(t, 'c', 'x'), stream=True)
 # ---- unpacks
 E('unpack', lambda t: petl.unpack(petl.convert(t, 'c', lambda v: v.split(',')), 'c', ['p', 'q']), stream=True)
 E('unpackdict', lambda t: petl.unpackdict(petl.convert(t, 'c', lambda v: {'p': v}), 'c', keys=['p']), stream=True)
+E('unpackdict-sample-nondict', lambda t: petl.unpackdict(petl.convert(t, 'c', lambda v: {'p': v} if v != 'x,y' else None), 'c', samplesize=2),
+  hdr=('a', 'b'), stream=True, look=2)
 E('unpackdict-sample', lambda t: petl.unpackdict(petl.convert(t, 'c', lambda v: {'p': v}), 'c', samplesize=2),
   hdr=('a', 'b'), stream=True, look=2)
 # ---- reshape
@@ -280,6 +283,8 @@ EB('mergesort-presorted-other', lambda t: petl.mergesort(t, OTHER, key='a', pres
 EB('mergesort-header-other', lambda t: petl.mergesort(t, OTHER, key='a', header=['a', 'z', 'b']))
 EB('annex-3', lambda t: petl.annex(t, OTHER, t), stream=True)
 EB('cat-missing', lambda t: petl.cat(t, OTHER, missing='-'), stream=True)
+EB('stack-notrim-pad', lambda t: petl.stack(t, OTHER, missing='-', trim=False, pad=True), stream=True)
+EB('stack-notrim-nopad', lambda t: petl.stack(t, OTHER, trim=False, pad=False), stream=True)
 EB('stack-missing-trim', lambda t: petl.stack(t, OTHER, missing='-', trim=True, pad=True), stream=True)
 EB('addfield-row-list', lambda t: petl.addfield(t, 'd', lambda r: list(r)), stream=True)
 EB('movefield-last', lambda t: petl.movefield(t, 'a', 2), stream=True)
